@@ -7,6 +7,7 @@ Does not decide: arg-min correctness (numpy), tie behaviour.
 """
 from __future__ import annotations
 import ast
+import copy
 from ..model import fqual, get_kw
 from ..own import Ownership
 from ..symx import Expander
@@ -17,7 +18,7 @@ from ..report import AnalysisError
 from ..term import Resolver, pmatch, abstract, anf_of
 
 REL = "inference/pdf/hdi.py"
-FLOORS = {"input-layout": 2, "float-arithmetic": 1, "ownership": 1, "window-offset": 3, "axis-discipline": 5, "endpoints-are-samples": 1, "result-keyed-on-values": 1}
+FLOORS = {"input-layout": 2, "float-arithmetic": 1, "ownership": 1, "window-offset": 3, "axis-discipline": 3, "endpoints-are-samples": 1, "result-keyed-on-values": 1}
 
 
 NEUTRAL_CALLS = {"array", "asarray", "asanyarray", "copy", "ascontiguousarray", "asfortranarray", "atleast_1d", "deepcopy"}
@@ -127,7 +128,7 @@ class _RowCount(ast.NodeTransformer):
     """`X.shape[0]` / `len(X)` of any array that has the rows of the sample (the argument itself or a local every definition of which
     is a row-preserving function of it: array / asarray / sort / copy / reshape to (size, 1)) is rewritten to the row count of the
     sorted copy `sname`: sorting, copying and adding a column axis do not change the number of rows."""
-    KEEP_F = {"array", "asarray", "sort", "copy", "ascontiguousarray", "asanyarray", "atleast_1d"}
+    KEEP_F = {"array", "asarray", "sort", "sorted", "copy", "ascontiguousarray", "asanyarray", "atleast_1d"}
     KEEP_M = {"copy", "reshape", "astype"}
 
     def __init__(self, fn, sname):
@@ -142,7 +143,9 @@ class _RowCount(ast.NodeTransformer):
         if isinstance(e, ast.Name):
             if e.id == self.param or e.id == self.sname:
                 return True
-            if e.id in seen or e.id not in self.defs:
+            if e.id in seen:
+                return True           # `s = f(s)`: the earlier binding of the same name, itself among the definitions being checked
+            if e.id not in self.defs:
                 return False
             return all(self.rows_of_sample(v, seen + (e.id,)) for v in self.defs[e.id])
         if isinstance(e, ast.Call):
@@ -156,6 +159,14 @@ class _RowCount(ast.NodeTransformer):
                     if not (first is not None and (U(first) == "-1" or (isinstance(first, ast.Attribute) and first.attr == "size"))):
                         return False
                 return self.rows_of_sample(f.value, seen)
+        if isinstance(e, ast.Subscript):
+            # `X[:, None]` / `X[:]`: every row kept (a column axis added)
+            idx = e.slice.elts if isinstance(e.slice, ast.Tuple) else [e.slice]
+            full = isinstance(idx[0], ast.Slice) and idx[0].lower is None and idx[0].upper is None and idx[0].step is None
+            if full and all(U(x) in ("None", "newaxis") for x in idx[1:]):
+                return self.rows_of_sample(e.value, seen)
+        if isinstance(e, ast.IfExp):
+            return self.rows_of_sample(e.body, seen) and self.rows_of_sample(e.orelse, seen)
         return False
 
     def visit_Subscript(self, n):
@@ -219,30 +230,54 @@ def _run_main(prog, tier):
         sl = s_.targets[0].slice
         row = U(sl.elts[0]) if isinstance(sl, ast.Tuple) else U(sl)
         rows.setdefault(row, []).append(s_)
-    TAKE = ["take_along_axis(_s, {i}, 0).ravel()", "take_along_axis(_s, {i}, axis=0).ravel()", "take_along_axis(_s, {i}, 0).flatten()",
-            "take_along_axis(_s, {i}, axis=0).flatten()", "take_along_axis(_s, {i}, 0).reshape(-1)", "take_along_axis(_s, {i}, axis=0).reshape(-1)",
-            "take_along_axis(_s, {i}, 0).squeeze()", "take_along_axis(_s, {i}, axis=0).squeeze()",
-            "take_along_axis(_s, {i}, 0)[0]", "take_along_axis(_s, {i}, axis=0)[0]", "take_along_axis(_s, {i}, 0)", "take_along_axis(_s, {i}, axis=0)"]
-    WIDTHS = ["expand_dims((_s[_L:, :] - _s[:_n - _L, :]).argmin(axis=0), axis=0)", "expand_dims((_s[_L:] - _s[:_n - _L]).argmin(axis=0), axis=0)",
-              "expand_dims((_s[_L:, :] - _s[:_n - _L, :]).argmin(axis=0), 0)", "expand_dims((_s[_L:] - _s[:_n - _L]).argmin(axis=0), 0)",
-              "(_s[_L:, :] - _s[:_n - _L, :]).argmin(axis=0)[None, :]", "(_s[_L:] - _s[:_n - _L]).argmin(axis=0)[None, :]"]
+    # a gather "row I[j] of column j" has several spellings; each is reduced to (array, I) with I the per-column row index as a 1-D
+    # expression (index expansions `expand_dims(A, 0)`, `A[None, :]` are looked through; `argmin(X, axis=k)` is read as X.argmin(axis=k))
+    class _NormIdx(ast.NodeTransformer):
+        def visit_Call(self, n):
+            self.generic_visit(n)
+            if U(n.func) == "expand_dims" and len(n.args) + len(n.keywords) == 2:
+                ax = n.args[1] if len(n.args) == 2 else n.keywords[0].value
+                if U(ax) == "0":
+                    return n.args[0]
+            if isinstance(n.func, ast.Name) and n.func.id in ("argmin",) and n.args:
+                return ast.Call(func=ast.Attribute(value=n.args[0], attr=n.func.id, ctx=ast.Load()), args=n.args[1:], keywords=n.keywords)
+            return n
+
+        def visit_Subscript(self, n):
+            self.generic_visit(n)
+            if U(n.slice) in ("(None, slice(None, None, None))", "None, :", "(None, :)", "None") or \
+                    (isinstance(n.slice, ast.Tuple) and len(n.slice.elts) == 2 and U(n.slice.elts[0]) == "None" and U(n.slice.elts[1]) == ":") or \
+                    (isinstance(n.slice, ast.Constant) and n.slice.value is None):
+                return n.value
+            return n
+
+    TAILS = ["{g}.ravel()", "{g}.flatten()", "{g}.reshape(-1)", "{g}.squeeze()", "{g}[0]", "{g}"]
+    GATHERS = ["take_along_axis(_s, _I, 0)", "take_along_axis(_s, _I, axis=0)", "_s[_I, arange(_s.shape[1])]", "_s[_I, arange(len(_s[0]))]"]
+    WIDTHS = ["(_s[_L:, :] - _s[:_n - _L, :]).argmin(axis=0)", "(_s[_L:] - _s[:_n - _L]).argmin(axis=0)"]
+
+    def gather(t, fixed=None):
+        t = _NormIdx().visit(copy.deepcopy(t))
+        for tl in TAILS:
+            for gform in GATHERS:
+                b_ = pmatch(t, tl.format(g=gform), fixed or {})
+                if b_ is not None:
+                    return b_
+        return None
     found = None
     why = []
     lows = [(s_, rz.term(s_.value, s_)) for s_ in rows.get("0", [])]
     ups = [(s_, rz.term(s_.value, s_)) for s_ in rows.get("1", [])]
     for s0, t0 in lows:
-        for tk in TAKE:
-            b0 = pmatch(t0, tk.format(i="_i"))
-            if b0 is None:
-                continue
-            itree = ast.parse(b0["_i"], mode="eval").body
-            for wp in WIDTHS:
-                bw = pmatch(itree, wp, {"_s": b0["_s"]})
-                if bw is None:
-                    continue
+        b0 = gather(t0)
+        if b0 is None:
+            continue
+        itree = ast.parse(b0["_I"], mode="eval").body
+        for wp in WIDTHS:
+            bw = pmatch(itree, wp, {"_s": b0["_s"]})
+            if bw is not None:
+                b0 = dict(b0)
+                b0["_i"] = b0["_I"]
                 found = (s0, b0, bw)
-                break
-            if found:
                 break
         if found:
             break
@@ -258,11 +293,9 @@ def _run_main(prog, tier):
         # the upper end is fetched with the same offset, from the same array
         up_ok = False
         for s1, t1 in ups:
-            for tk in TAKE:
-                for form in ("_i + _L", ):
-                    b1 = pmatch(t1, tk.format(i=form), {"_s": sname, "_i": itxt, "_L": Ltxt})
-                    if b1 is not None:
-                        up_ok = True
+            b1 = gather(t1, {"_s": sname})
+            if b1 is not None and pmatch(ast.parse(b1["_I"], mode="eval").body, "_i + _L", {"_i": itxt, "_L": Ltxt}) is not None:
+                up_ok = True
         if not up_ok:
             why.append(f"the upper end is not take_along_axis({sname}, i + L, axis=0) with the same i and the same offset L = `{Ltxt}`; "
                        f"upper-end terms: " + "; ".join(U(t)[:200] for _, t in ups))
@@ -287,6 +320,11 @@ def _run_main(prog, tier):
         obs.append(struct_ob("window-offset", construct + "[widths]", True, "", REL, fn.lineno,
                              slots={"widths": f"{found[2]['_s']}[{found[2]['_L']}:] - {found[2]['_s']}[:{found[2]['_n']} - {found[2]['_L']}]"}))
     sname = found[2]["_s"] if found else "s"
+    # when the working copy is cleanly re-bound on the way the resolved term of the gathered array is `sorted(<copy>, axis=0)` itself
+    # (the term layer's reading of `<copy>.sort(axis=0)`): the statements below are then looked up under the copy's own name
+    bs_ = pmatch(ast.parse(sname, mode="eval").body, "sorted(_x, axis=0)")
+    if bs_ is not None:
+        sname = bs_["_x"]
     # the windows are used whenever there is one: the guard around them is n > L (every fraction < 1 of two or more draws), not a
     # stricter test that sends small samples to the full range
     if found:
@@ -327,6 +365,9 @@ def _run_main(prog, tier):
                 checks.append(("sort", c, ax is not None and U(ax) == "0"))
             elif isinstance(c.func, ast.Attribute) and c.func.attr == "argmin":
                 ax = get_kw(c, "axis", 0)
+                checks.append(("argmin", c, ax is not None and U(ax) == "0"))
+            elif f == "argmin" and c.args:
+                ax = get_kw(c, "axis", 1)
                 checks.append(("argmin", c, ax is not None and U(ax) == "0"))
             elif f == "take_along_axis":
                 ax = get_kw(c, "axis", 2)
